@@ -45,6 +45,23 @@ fn run_record(r: &RunResult) -> Value {
     json!({"exit": exit, "labels": labels_json(&ls.unwrap_or_default()), "err": err, "note": note})
 }
 
+/// Checks that MUST report on the program of the recipe whenever they are selected (independent of any
+/// reference run of the analyzer): the program contains their trigger sequence. With the kernel-module
+/// configuration only the triggers that use kernel function names / no configuration are listed.
+fn must_fire(rc: &Recipe) -> Vec<String> {
+    if rc.g != "gadget" {
+        return vec![];
+    }
+    // only the purely syntactic checks: their triggers fire regardless of the surrounding code
+    const SYNTACTIC: [&str; 9] = ["CWE676", "CWE782", "CWE426", "CWE243", "CWE367", "CWE560", "CWE467", "CWE215", "CWE332"];
+    const WITH_LKM_CONFIG: [&str; 5] = ["CWE676", "CWE467", "CWE215", "CWE782", "CWE560"];
+    rc.gadgets
+        .iter()
+        .filter(|g| SYNTACTIC.contains(&g.as_str()) && (!rc.cfg_lkm || WITH_LKM_CONFIG.contains(&g.as_str())))
+        .cloned()
+        .collect()
+}
+
 const INVALID: [&str; 14] = [
     "CWE7", "CWE4760", "cwe476", " CWE476", "CWE476 ", "CWE", "CWE457", "memory", "all", "CWE-476", "476", "CWE78;CWE476",
     "CWE1190", "WE119",
@@ -153,7 +170,25 @@ fn main() {
         let mut rng = Rng::new(args.seed);
         let n_inputs = args.num("inputs", 36, 400) as usize;
         let n_sel = args.num("selections", 7, 12) as usize;
-        for i in 0..n_inputs {
+        // directed, always-run: kernel modules containing triggers of checks OUTSIDE MODULES_LKM, selected with --partial
+        let directed: Vec<(Vec<&str>, bool, Vec<&str>)> = vec![
+            (vec!["CWE782", "CWE676"], false, vec!["CWE782", "CWE782,CWE676", "CWE676"]),
+            (vec!["CWE782", "CWE676", "CWE560"], true, vec!["CWE782", "CWE560,CWE676", "CWE782,CWE560"]),
+            (vec!["CWE243", "CWE476", "CWE426", "CWE367"], false, vec!["CWE243,CWE476", "CWE426", "CWE367,CWE243"]),
+            (vec!["CWE332", "CWE78", "Memory", "CWE119"], false, vec!["CWE332", "Memory,CWE78", "CWE119,CWE332"]),
+        ];
+        for (k, (gadgets, cfg_lkm, partials)) in directed.iter().enumerate() {
+            let rc = Recipe { g: "gadget".into(), state: 7001 + 2 * k as u64, kind: Kind::Lkm, gadgets: gadgets.iter().map(|s| s.to_string()).collect(),
+                split: k % 2 == 1, extra: 0, cfg_lkm: *cfg_lkm, shared: false };
+            let id = recipes.len();
+            jobs.push(Job { input_id: id, partial: None, tag: "lkm-default" });
+            for p in partials {
+                jobs.push(Job { input_id: id, partial: Some(p.to_string()), tag: "lkm-partial-directed" });
+            }
+            recipes.push(rc);
+        }
+        let n_directed = recipes.len();
+        for i in n_directed..n_directed + n_inputs {
             let rc = Recipe::random_gadget(&mut rng);
             let avail = if rc.cfg_lkm { &avail_lkm } else { &all_names };
             jobs.push(Job { input_id: i, partial: None, tag: if rc.kind == Kind::Lkm { "lkm-default" } else { "default" } });
@@ -194,6 +229,9 @@ fn main() {
             "fired": labels_json(&fired.clone().unwrap_or_default()),
             "impl": rec,
             "gen": rc.json(),
+            // ground truth that does not go through the analyzer: checks whose trigger sequence is in the program
+            // and is known to fire with the configuration used
+            "must": must_fire(rc),
         });
         if all_run.exit != Some(0) || fired.is_none() {
             line["fired_note"] = json!(all_run.stderr.chars().take(300).collect::<String>());
